@@ -323,6 +323,7 @@ class Schedule:  # 0404
                 payload[SZ_FRAGMENT] for payload in payload_set if payload
             )  # TODO: messy - what is set not full
         except zlib.error:
+            self._full_schedule = {}  # the frags have changed: the cached sched is stale
             return None  # TODO: raise a more parochial exception
 
         if self.idx == "HW":
